@@ -23,7 +23,9 @@ func VerifH_keyprf_hmacprf() {
 	ht := [...]HashType{SHA1, SHA224, SHA256, SHA384, SHA512}[sel]
 	hf := [...]func() hash.Hash{sha1.New, sha256.New224, sha256.New, sha512.New384, sha512.New}[sel]
 	size := [...]int{20, 28, 32, 48, 64}[sel]
-	kl := [...]int{16, 32}[verifrt.Choice("klen", 2)]
+	// key sizes below, at and above the hash block sizes (64 bytes for SHA-1/224/256, 128 for
+	// SHA-384/512): RFC 2104 pads keys up to the block size and hashes only longer ones
+	kl := [...]int{16, 32, 64, 65, 100, 128, 129}[verifrt.Choice("klen", 7)]
 	kb := verifrt.Bytes("key", kl)
 	params, err := NewParameters(kl, ht)
 	verifrt.Assert(err == nil, "NewParameters")
